@@ -153,6 +153,10 @@ func ruleR12_3(w *World, r *Report) {
 				continue
 			}
 			switch f.Name() {
+			case "Delete", "LoadAndDelete", "CompareAndDelete", "Clear", "Range":
+				if f.Name() != "Range" {
+					r.Bad(fnName(fn)+"/"+f.Name()+" on "+exprName(recv), u.Pos(c.Pos()), "an entry of the process-wide lock map is removed: a request that already waits on the removed mutex and a newcomer that creates a fresh one for the same name are both let into the critical section")
+				}
 			case "Store", "LoadOrStore", "Swap", "CompareAndSwap":
 				n++
 				val := args[len(args)-1]
